@@ -5,6 +5,7 @@
 From Coq Require Import List NArith Bool.
 From FP Require Import Model.Base Model.Rdh Model.RdhChecks Model.CdpRunning Model.Scanner Model.Link Spec.Grammar Spec.GrammarIts Spec.GrammarItsCheck Proofs.C01_rdh Proofs.C01_its Proofs.C01_check Proofs.C01_stave Proofs.C01_stave_check.
 From FP Require Import Spec.GrammarItsCdw Spec.GrammarItsCdwCheck Proofs.C01_its_cdw Proofs.C01_cdw_check.
+From FP Require Import Spec.GrammarStaveCdwCheck Proofs.C01_stave_cdw Proofs.C01_cdw_contains.
 From FP Require Import Model.Alpide Spec.GrammarStave Spec.GrammarStaveCheck.
 From FP Require Gen.Facts.
 Import ListNotations.
@@ -64,6 +65,21 @@ Theorem C01_calibration_nonvacuous :
   link_witness_cdw ExampleC.ldc = Some [ExampleC.ch10; ExampleC.ch11] /\ length (render_link ExampleC.ldc) = 8%nat.
 Proof. split; [exact ExampleC.accepted|reflexivity]. Qed.
 
+(* the CDW-extended grammar contains the plain one (no CDW on any page) *)
+Theorem C01_plain_grammar_is_contained : forall ld ihs, wf_link_its ld ihs -> wf_link_its_cdw ld (map lift_hbf ihs).
+Proof. exact plain_link_is_calibration_link. Qed.
+(* ... and calibration runs in stave mode: stave-conforming trigger packets, CDWs as above (a CDW is not lane data: the open readout
+   frame does not see it) -- `check all its-stave` emits nothing but ALPIDE statistics messages *)
+Theorem C01_stave_tier_calibration : forall ld chs ly ps, wf_link_stave_cdw ld chs ly -> map strip ps = render_link ld ->
+  exists m, run_validator stave_cfg ps = Ok m /\ quiet m.
+Proof. exact c01_stave_cdw_link. Qed.
+Theorem C01_stave_tier_calibration_checked : forall ld chs ly ps, stave_witness_cdw ld = Some (chs, ly) -> map strip ps = render_link ld ->
+  exists m, run_validator stave_cfg ps = Ok m /\ quiet m.
+Proof. exact (fun ld chs ly ps H => c01_stave_cdw_link ld chs ly ps (stave_witness_cdw_sound ld chs ly H)). Qed.
+Theorem C01_stave_calibration_nonvacuous :
+  stave_witness_cdw ExampleSC.ldSC = Some ([ExampleSC.chS 10], L_Inner) /\ length (render_link ExampleSC.ldSC) = 3%nat.
+Proof. split; [exact ExampleSC.accepted|reflexivity]. Qed.
+
 (* the stave tier: if moreover every trigger packet is stave-conforming -- its data words, grouped by lane, are the bytes of ALPIDE
    lanes as the independent encoder produces them (any hits, regions, busy words, idle bytes), every lane with at least one chip, no
    fatal announcement, no chip twice, all chips of all lanes in one bunch crossing, an inner-barrel lane carrying exactly the chip named
@@ -92,6 +108,10 @@ Print Assumptions C01_stave_membership_test_nonvacuous.
 Print Assumptions C01_its_nonvacuous.
 Print Assumptions C01_its_tier_checked.
 Print Assumptions C01_membership_test_nonvacuous.
+Print Assumptions C01_plain_grammar_is_contained.
+Print Assumptions C01_stave_tier_calibration.
+Print Assumptions C01_stave_tier_calibration_checked.
+Print Assumptions C01_stave_calibration_nonvacuous.
 Print Assumptions C01_its_tier_calibration.
 Print Assumptions C01_its_tier_calibration_checked.
 Print Assumptions C01_calibration_membership_test_sound.
